@@ -78,6 +78,7 @@ type ConnPlan struct {
 	Traffic   []TStep  `json:"traffic,omitempty"`
 	CloseAct  int      `json:"close_act,omitempty"` // action returned by OnClose
 	Start     int      `json:"start,omitempty"`     // decisions to wait before connecting
+	Dial      bool     `json:"dial,omitempty"`      // the connection is created by Engine.Register / Enroll from a user task
 }
 
 // UserOp is one call made by an application goroutine outside the loops.
